@@ -44,6 +44,8 @@ def parse_type(node):
             return ("none",)
         if node.id == "FDict":
             return ("arr", "fdict", 1)
+        if node.id == "FDict2":
+            return ("arr", "fdict", 2)  # numba typed dict (int64, int64) -> float64
         if node.id == "ArrayMap":
             return (
                 "tup",
